@@ -75,6 +75,12 @@ def failure_scenarios():
         pass
     sc = []
     sc.append(('wrong psk', dict(conf_edit=lambda c: c['B']['B-A']['peer_auth'].__setitem__('psk', 'not-the-right-psk-1'))))
+    # near misses: the secret one side holds for the other is the right one with a blank / line end at either end, one octet more or less, another letter case
+    # (what a diagnostic that tries to be helpful would look at - and quote)
+    for label, f in (('trailing newline', lambda k: k + '\n'), ('leading blank', lambda k: ' ' + k), ('one octet more', lambda k: k + 'x'), ('one octet less', lambda k: k[:-1]),
+                     ('other case', lambda k: k.upper())):
+        sc.append((f'near-miss psk at the responder ({label})', dict(conf_edit=lambda c, f=f: c['B']['B-A']['peer_auth'].__setitem__('psk', f(c['A']['A-B']['my_auth']['psk'])))))
+        sc.append((f'near-miss psk at the initiator ({label})', dict(conf_edit=lambda c, f=f: c['A']['A-B']['peer_auth'].__setitem__('psk', f(c['B']['B-A']['my_auth']['psk'])))))
     sc.append(('wrong peer id', dict(conf_edit=lambda c: c['B']['B-A']['peer_auth'].__setitem__('id', 'mallory@example.org'))))
     # identities are text that the PEER chooses: text that looks like a format template / a conversion must stay text when it is reported
     sc.append(('hostile initiator identity', dict(conf_edit=lambda c: c['A']['A-B']['my_auth'].__setitem__('id', '{0.my_auth.psk}@{0.peer_auth.psk}'))))
